@@ -415,7 +415,9 @@ class Parser:
                 code_gen.add_instruction(OpCode.PUSHQ, value)
             else:
                 code_gen.push(value)
-        elif value is not dest:
+        elif move_inst is OpCode.MOVEQ or value is not dest:
+            # Only moving a register or variable onto itself can be skipped;
+            # the string "s" assigned to the variable s is not such a move.
             code_gen.add_instruction(move_inst, value, dest)
 
         return self.next_token()
